@@ -1812,7 +1812,7 @@ func (f *framer) readString() (s string) {
 func (f *framer) readLongString() (s string) {
 	size := f.readInt()
 
-	if len(f.buf) < size {
+	if size < 0 || len(f.buf) < size {
 		panic(fmt.Errorf("not enough bytes in buffer to read long string require %d got: %d", size, len(f.buf)))
 	}
 
